@@ -1099,7 +1099,7 @@ func (w *World) doStop() {
 	select {
 	case <-done:
 	case <-time.After(30 * time.Second):
-		w.Deadlock = "Stop did not return within 30s"
+		w.Deadlock = "Stop did not return within 30s; gateway goroutines: " + gatewayStacks(2500)
 		return
 	}
 	// Stop has returned: whatever a client that was not reading finds on its
@@ -1270,6 +1270,43 @@ func jsonCompact(b []byte) string {
 	}
 	o, _ := json.Marshal(v)
 	return string(o)
+}
+
+// gatewayStacks: the stacks of the goroutines that are inside gateway code
+// (diagnostics for a Stop that does not return), shortened to the function names.
+func gatewayStacks(limit int) string {
+	var out []string
+	for _, block := range strings.Split(DumpAll(), "\n\n") {
+		if !strings.Contains(block, "resgateio/resgate/server") {
+			continue
+		}
+		var fns []string
+		for i, ln := range strings.Split(block, "\n") {
+			if i == 0 {
+				fns = append(fns, ln)
+				continue
+			}
+			if strings.HasPrefix(ln, "\t") || strings.HasPrefix(ln, "created by") {
+				continue
+			}
+			if j := strings.LastIndexByte(ln, '('); j > 0 {
+				ln = ln[:j]
+			}
+			if j := strings.LastIndexByte(ln, '/'); j >= 0 {
+				ln = ln[j+1:]
+			}
+			fns = append(fns, ln)
+			if len(fns) > 9 {
+				break
+			}
+		}
+		out = append(out, strings.Join(fns, " < "))
+	}
+	r := strings.Join(out, " || ")
+	if len(r) > limit {
+		r = r[:limit]
+	}
+	return r
 }
 
 // freePort returns a loopback TCP port that was free when asked.
